@@ -148,14 +148,18 @@ def run(ctx: Ctx) -> None:
     list_names = names_in(ex) - {"tuple"}
     appends = [c for c in calls(fac) if last_attr(c) == "append" and isinstance(c.func, ast.Attribute) and isinstance(c.func.value, ast.Name) and c.func.value.id in list_names]
     inits = [n for n in walk_scope(fac.node) if isinstance(n, (ast.Assign, ast.AnnAssign)) and any(isinstance(t, ast.Name) and t.id in list_names for t in (n.targets if isinstance(n, ast.Assign) else [n.target]))]
+    sources: list[tuple[ast.expr, ast.AST]] = []  # (entry expression, the statement that adds it)
     for n in inits:
         v = n.value
-        if not (isinstance(v, ast.List) and not v.elts):
-            raise AnalysisError("C20: exemption list is not initialised empty (unsupported shape)")
-    ctx.require_count("RF-TABLE", len(appends), 1, "exemption entries")
-    entries: list[tuple[ast.expr, str, ast.Call]] = []  # (expr, kind, call)
+        if not isinstance(v, (ast.List, ast.Tuple)):
+            raise AnalysisError("C20: exemption list is not initialised from a list display (unsupported shape)")
+        for e in v.elts:
+            sources.append((e, n))
     for c in appends:
-        arg = c.args[0]
+        sources.append((c.args[0], c))
+    ctx.require_count("RF-TABLE", len(sources), 1, "exemption entries")
+    entries: list[tuple[ast.expr, str, ast.AST]] = []  # (expr, kind, site)
+    for arg, c in sources:
         v = mini_eval(arg, {"prefix": "/P"}) if True else None
         guards = enclosing(fcfg, c, (ast.If,))
         gnames: set[str] = set()
